@@ -253,9 +253,11 @@ func c17Doc(c *fw.Ctx) (corpusDoc, string) {
 	td := testdataDocs()
 	switch {
 	case variant == 5 && (format == "srt" || format == "webvtt" || format == "ssa"):
-		// one text line of 4.5..9 KiB of multi-byte characters: read boundaries fall inside a character while the
-		// scanner is still looking for the end of the line
-		long := strings.Repeat(fw.Pick(c.R, []string{"é", "日本", "😀x", "ü—"}), c.R.Range(1500, 3000))
+		// one text line of 4.5 KiB up to just under the scanner's 64 KiB limit, made of multi-byte characters: read
+		// boundaries fall inside a character while the scanner is still looking for the end of the line
+		unit := fw.Pick(c.R, []string{"é", "日本", "😀x", "ü—"})
+		target := fw.Pick(c.R, []int{c.R.Range(4500, 9500), c.R.Range(4500, 9500), c.R.Range(16500, 20000), c.R.Range(33000, 40000), c.R.Range(60000, 63000)})
+		long := strings.Repeat(unit, target/len(unit)+1)
 		d := corpusDoc{Format: format, Ext: corpusExt[format], Read: corpusReader(format, astisub.TeletextOptions{}), Origin: "long multi-byte line"}
 		switch format {
 		case "srt":
